@@ -47,6 +47,10 @@ pub const R_DONE: u32 = 15;
 /// main: scenario could not be parsed
 pub const R_BAD_ARGS: u32 = 16;
 
+/// allocprobe (C04, engine B): a round is over, every worker is joined, main has done one
+/// uncontended alloc/free. tag = round index, v0 = checksum of the bytes touched
+pub const R_ROUND_END: u32 = 20;
+
 // ---- scenario ------------------------------------------------------------------------------
 // argv: mode nbatches { nthreads { class panics nrec sleep_ms alloc fate } * nthreads } * nbatches
 /// mode 1: run under the tracer (QUIESCE is a barrier); mode 0: native (QUIESCE sleeps)
